@@ -126,12 +126,14 @@ def _escaped_from_sut(exc):
     fn = os.path.realpath(last.filename) if os.path.exists(last.filename) else last.filename
     if fn.startswith(repo + os.sep):
         return last.name
+    # (an error raised by a seam - e.g. the simulated file refusing to encode a character - belongs to the caller)
     # decoding errors surface in codec frames: attribute them to the nearest non-stdlib frame
+    seams = ("simfs.py", "simpipe.py", "simproc.py")  # code of the simulator that the code under test calls into
     for fr in reversed(tb):
         f2 = os.path.realpath(fr.filename) if os.path.exists(fr.filename) else fr.filename
         if f2.startswith(repo + os.sep):
             return fr.name
-        if f2.startswith(VERIF + os.sep):
+        if f2.startswith(VERIF + os.sep) and os.path.basename(f2) not in seams:
             return None
     return None
 
